@@ -450,6 +450,19 @@ pub fn join(depth: usize) -> Value {
                 wants.push(semi(&|x| Some(!r.iter().any(|y| lt(x, y) == Some(true)))));
                 sqls.push("select a, b from l where exists (select * from r where c > a)".into());
                 wants.push(semi(&|x| Some(r.iter().any(|y| lt(x, y) == Some(true)))));
+                // inputs that need no column at all (count(*) over a join, uncorrelated EXISTS): chunks without columns still have rows (H38)
+                let one = |n: usize| vec![vec![n.to_string()]];
+                sqls.push("select count(*) from l, r".into());
+                wants.push(one(l.len() * r.len()));
+                for kind in ["inner", "left", "right", "full"] {
+                    sqls.push(format!("select count(*) from l {kind} join r on a < c"));
+                    wants.push(one(join_oracle(&l, &r, kind, &lt).len()));
+                }
+                let some_pos = r.iter().any(|y| matches!(y[0], Some(c) if c > 0));
+                sqls.push("select count(*) from l where exists (select * from r where c > 0)".into());
+                wants.push(one(if some_pos { l.len() } else { 0 }));
+                sqls.push("select count(*) from l where not exists (select * from r where c > 0)".into());
+                wants.push(one(if some_pos { 0 } else { l.len() }));
                 tried += wants.len() as u64;
                 let outs = match run(e, &sqls, &[]) { Ok(o) => o, Err(err) => return found_raw(tried, e, &sqls, &[], sqls.len() - 1, "the session to run".into(), err) };
                 for (i, o) in outs.iter().enumerate().take(q0) { if let Err(err) = o { if let Some(v) = found(tried, e, &sqls, &[], i, "statement to succeed".into(), err.clone()) { return v; } } }
